@@ -27,6 +27,8 @@ pub struct GenCfg {
     pub hostile_names: bool,
     /// traits, trait / inherent impls, method calls in every form, bounded generics, `dyn Tr`
     pub traits: bool,
+    /// statements that compute a value of any type and drop it (`let _ = e;`, `e;`)
+    pub discards: bool,
     /// bias towards closures (C08), generics (C07), effects (C09)
     pub focus: Focus,
 }
@@ -58,6 +60,7 @@ impl GenCfg {
             floats: true,
             hostile_names: false,
             traits: false,
+            discards: false,
             focus: Focus::None,
         }
     }
@@ -2300,8 +2303,18 @@ impl<'a, 'd> Gen<'a, 'd> {
             if self.cfg.closures { if self.cfg.focus == Focus::Closures { 60 } else { 10 } } else { 0 }, // let closure
             if self.cfg.containers { 5 } else { 0 }, // vec push chain
             if self.cfg.traits && self.usable_traits > 0 { if self.cfg.focus == Focus::Traits { 30 } else { 8 } } else { 0 }, // let d: dyn Tr = ..
+            if self.cfg.discards { 7 } else { 0 },  // a value that is computed and dropped
         ];
         match self.d.weighted(&w) {
+            8 => {
+                // `let _ = e;`, or `e;` for an if / match / call used as a statement: whatever
+                // e does (print, fail) still has to happen
+                let t = self.ty(1);
+                let e = self.expr(&t, fuel);
+                let bare = matches!(e, Expr::If(..) | Expr::Match(..) | Expr::Call(..)) && self.d.bool();
+                self.label(if bare { "discard:bare-statement" } else { "discard:let" });
+                vec![Stmt::Expr(e, bare)]
+            }
             7 => {
                 let trs = self.dyn_traits();
                 if trs.is_empty() {
